@@ -18,17 +18,26 @@ import (
 // must be identical in all of them.
 func selftest(args []string) int {
 	scen := map[string]part{}
-	for _, pc := range props {
-		for _, pt := range pc.Parts {
+	focusOf := map[string][]string{}
+	for _, id := range sortedKeys(props) {
+		for _, pt := range props[id].Parts {
 			scen[pt.Scenario] = pt
+			focusOf[pt.Scenario] = append(focusOf[pt.Scenario], id)
 		}
 	}
 	only := ""
 	n := uint64(64)
+	deep := false
 	for i := 0; i < len(args); i++ {
 		if args[i] == "--scenario" && i+1 < len(args) {
 			only = args[i+1]
 		}
+		if args[i] == "--deep" {
+			deep = true
+		}
+	}
+	if deep {
+		return selftestDeep(scen, focusOf, only)
 	}
 	names := make([]string, 0, len(scen))
 	for s := range scen {
@@ -95,6 +104,75 @@ func selftest(args []string) int {
 			fmt.Printf("selftest %-10s FAILED: %d different outputs\n", s, len(results))
 			for h, g := range results {
 				fmt.Printf("  GOMAXPROCS %v: %s\n", g, tail(h, 200))
+			}
+		}
+	}
+	if bad > 0 {
+		return 2
+	}
+	return 0
+}
+
+
+// selftestDeep: per (scenario, focus property, tier) 300 seeds, each executed in three
+// processes (GOMAXPROCS 1, 4, 16): catches nondeterminism that only some generator paths reach.
+func selftestDeep(scen map[string]part, focusOf map[string][]string, only string) int {
+	bad := 0
+	for _, s := range sortedKeys(scen) {
+		if only != "" && s != only {
+			continue
+		}
+		pt := scen[s]
+		if pt.Race {
+			continue // one run per process there; covered by the plain self-test
+		}
+		bin := build(false)
+		for _, focus := range focusOf[s] {
+			for _, tier := range []string{"quick", "thorough"} {
+				tmp, _ := os.MkdirTemp(buildDir, "selftest-")
+				var mu sync.Mutex
+				var wg sync.WaitGroup
+				results := map[string]int{}
+				for i, gmp := range []string{"1", "4", "16"} {
+					wg.Add(1)
+					go func(i int, gmp string) {
+						defer wg.Done()
+						hf := filepath.Join(tmp, fmt.Sprintf("h-%d", i))
+						job := &sim.Job{Mode: "batch", Scenario: s, Focus: focus, Tier: tier, BaseSeed: 777, From: 0, To: 300,
+							Out: filepath.Join(tmp, fmt.Sprintf("r-%d.json", i)), ReplayDir: tmp, Known: filepath.Join(verifDir, "known_findings.json"), NoMin: true, HashesOut: hf}
+						jf := filepath.Join(tmp, fmt.Sprintf("j-%d.json", i))
+						b, _ := json.Marshal(job)
+						os.WriteFile(jf, b, 0o644)
+						cmd := exec.Command(bin, "-test.run", "^TestWorker$", "-test.cpu", gmp)
+						cmd.Env = append(os.Environ(), "DSIM_JOB="+jf, "GOMAXPROCS="+gmp)
+						cmd.CombinedOutput()
+						hb, _ := os.ReadFile(hf)
+						mu.Lock()
+						results[string(hb)]++
+						mu.Unlock()
+					}(i, gmp)
+				}
+				wg.Wait()
+				os.RemoveAll(tmp)
+				if len(results) == 1 {
+					fmt.Printf("selftest-deep %-10s focus=%s tier=%-8s OK (3 processes x 300 seeds)\n", s, focus, tier)
+				} else {
+					bad++
+					fmt.Printf("selftest-deep %-10s focus=%s tier=%-8s FAILED: %d different outputs\n", s, focus, tier, len(results))
+					var outs []string
+					for h := range results {
+						outs = append(outs, h)
+					}
+					if len(outs) >= 2 {
+						a, b := strings.Split(outs[0], "\n"), strings.Split(outs[1], "\n")
+						for i := range a {
+							if i < len(b) && a[i] != b[i] {
+								fmt.Printf("  first difference: %q vs %q\n", a[i], b[i])
+								break
+							}
+						}
+					}
+				}
 			}
 		}
 	}
